@@ -24,7 +24,7 @@
 (* res.calls = what ran during the call, in order: callback ids, 100 + m = the custom shutdown function of m.       *)
 EXTENDS Integers, Sequences, FiniteSets, SequencesExt, TLC
 
-CONSTANTS Scope     \* "lts" | "lts2" | "mc" | "thorough" | "trace"
+CONSTANTS Scope     \* "lts" | "ltsB" | "lts2" | "mc" | "mcT" | "mcW" | "thorough" | "trace"
 VARIABLES cfg,
           par,      \* par[m] = parent module (0 for the root module 1)
           trg,      \* trg[m] = set of triggered events
@@ -41,11 +41,25 @@ vars == <<cfg, par, trg, subs, cbs, wgs, lvl, att, life, runs, cust, ev>>
 View == <<cfg, par, trg, subs, cbs, wgs, lvl, att, life>>
 MCView == <<View, runs, cust>>
 
-Bd(nm, nc, nw, nl) == [nm |-> nm, nc |-> nc, nw |-> nw, nl |-> nl]
-B == CASE Scope = "lts" -> Bd(2, 2, 1, 2) [] Scope = "lts2" -> Bd(3, 2, 1, 2) [] Scope = "mc" -> Bd(2, 2, 1, 1)
-       [] Scope = "thorough" -> Bd(3, 3, 2, 2) [] Scope = "trace" -> Bd(4, 8, 3, 3)
-Cfgs == [nm : {B.nm}, nc : {B.nc}, nw : {B.nw}, cs : IF Scope = "lts" THEN {TRUE} ELSE BOOLEAN]
-Wide == Scope \notin {"lts", "lts2"}
+(* bounds and stimulus alphabet per scope: nm modules, nc callbacks, nw wait groups, nl log levels, es = events that     *)
+(* stimuli name (InitSimpleLifecycle always touches all four), ks = callback kinds, ms = module lists for TriggerAll /    *)
+(* WaitAll, wide = all later targets for "trig" callbacks (else only the next event / the children), css = values of cs, *)
+(* lf = InitSimpleLifecycle variants offered (1 without, 2 with a shutdown function).                                    *)
+(* The exhaustive runs are slices: "mc" one module with callbacks and lifecycles, "mcT" a tree of three modules with       *)
+(* levels, "mcW" wait groups over two modules; "trace" bounds what the recorder produces.                                  *)
+Pm(nm, nc, nw, nl, es, ks, ms, wide, css, lf) == [nm |-> nm, nc |-> nc, nw |-> nw, nl |-> nl, es |-> es, ks |-> ks, ms |-> ms, wide |-> wide, css |-> css, lf |-> lf]
+AllKinds == {"plain", "reg", "trig"}
+AllSeqs == {<<>>, <<1>>, <<2>>, <<1, 2>>, <<2, 1>>, <<1, 1>>, <<1, 2, 3>>, <<3, 1, 2>>, <<2, 3>>, <<4, 2>>}
+B == CASE Scope = "lts"      -> Pm(1, 1, 0, 1, {3, 4}, AllKinds, {<<1>>}, FALSE, {TRUE}, {1, 2})
+       [] Scope = "ltsB"     -> Pm(2, 1, 1, 2, {3}, {"plain"}, {<<>>, <<2, 1>>}, FALSE, {TRUE}, {})
+       [] Scope = "lts2"     -> Pm(1, 1, 0, 1, {1, 3, 4}, AllKinds, {<<1>>}, FALSE, BOOLEAN, {1, 2})
+       [] Scope = "mc"       -> Pm(1, 2, 0, 1, {1, 3, 4}, AllKinds, {<<>>, <<1>>, <<1, 1>>}, TRUE, BOOLEAN, {1, 2})
+       [] Scope = "mcT"      -> Pm(3, 1, 0, 2, {3, 4}, {"plain", "trig"}, {<<1, 2>>, <<2, 1>>, <<1, 2, 3>>}, FALSE, {TRUE}, {})
+       [] Scope = "mcW"      -> Pm(2, 1, 1, 1, {1, 2}, {"plain", "trig"}, {<<>>, <<1>>, <<1, 2>>, <<2, 1>>, <<1, 1>>}, FALSE, {TRUE}, {})
+       [] Scope = "thorough" -> Pm(1, 3, 0, 1, 1..4, AllKinds, {<<>>, <<1>>, <<1, 1>>}, TRUE, BOOLEAN, {1, 2})
+       [] Scope = "trace"    -> Pm(4, 8, 3, 3, 1..4, AllKinds, AllSeqs, TRUE, BOOLEAN, {1, 2})
+Cfgs == [nm : {B.nm}, nc : {B.nc}, nw : {B.nw}, cs : B.css]
+Wide == B.wide
 E == 1..4
 NoSubs == <<<<>>, <<>>, <<>>, <<>>>>
 
@@ -124,11 +138,12 @@ Finish(s, S, r) ==
 
 Children(m) == {n \in Mods : par[n] = m}
 (* targets offered to a "trig" callback on event e of module m / on a wait group for event e *)
-TrigTargets(m, e) == {<<m, e2>> : e2 \in (IF Wide THEN (e + 1)..4 ELSE {e + 1} \cap E)} \cup {<<n, e>> : n \in Children(m)}
-WgTargets(e) == IF e = 4 THEN {} ELSE {<<n, e + 1>> : n \in (IF Wide THEN Mods ELSE {1})}
-MSeqs == IF Wide THEN {<<>>, <<1>>, <<2>>, <<1, 2>>, <<2, 1>>, <<1, 1>>, <<1, 2, 3>>, <<3, 1, 2>>, <<2, 3>>, <<4, 2>>}
-         ELSE {<<>>, <<1, 2>>, <<2, 1>>, <<2, 3>>}
-Kinds == {"plain", "reg", "trig"}
+Later(e) == {e2 \in B.es : e2 > e}
+NextEv(e) == IF Later(e) = {} THEN {} ELSE {CHOOSE e2 \in Later(e) : \A e3 \in Later(e) : e2 <= e3}
+TrigTargets(m, e) == {<<m, e2>> : e2 \in (IF Wide THEN Later(e) ELSE NextEv(e))} \cup {<<n, e>> : n \in Children(m)}
+WgTargets(e) == {<<n, e2>> : n \in (IF Wide THEN Mods ELSE {1}), e2 \in NextEv(e)}
+MSeqs == B.ms
+Kinds == B.ks
 
 Do(s) ==
   CASE s.op = "reset" -> /\ cfg' = s.cfg /\ par' = <<0>> /\ trg' = <<{}>> /\ subs' = <<NoSubs>> /\ cbs' = <<>> /\ wgs' = <<>> /\ lvl' = <<2>>
@@ -160,7 +175,7 @@ Do(s) ==
                 S0 == [Cur EXCEPT !.wgs = Append(@, <<s.e, ToSetS(s.ms), s.ms = <<>>, <<>>, ToSetS(s.ms)>>)] IN
             Finish(s, HookAll(S0, k, s.e, s.ms), "")
     [] s.op = "InitLife" ->      \* module.InitSimpleLifecycle(module s.m [, shutdown function])
-         /\ s.m \in Mods /\ life[s.m] = 0 /\ s.mode \in {1, 2} /\ UNCHANGED <<cfg, par, lvl>>
+         /\ s.m \in Mods /\ life[s.m] = 0 /\ s.mode \in B.lf /\ UNCHANGED <<cfg, par, lvl>>
          /\ life' = [life EXCEPT ![s.m] = s.mode]
          /\ LET S0 == IF 3 \in trg[s.m] THEN RunSubs(Cur, s.m, <<<<"life", s.mode>>>>)       \* Shutdown was triggered already
                       ELSE [Cur EXCEPT !.subs[s.m][3] = Append(@, <<"life", s.mode>>)] IN
@@ -177,14 +192,14 @@ Do(s) ==
          /\ lvl' = Follow([lvl EXCEPT ![s.m] = s.l], IF lvl[s.m] = s.l THEN {} ELSE {s.m}, s.m + 1, par, att)
          /\ Finish(s, Cur, "")
 
-Stimuli == [op : {"Trigger"}, m : 1..B.nm, e : E]
-     \cup  [op : {"OnTrigger"}, m : 1..B.nm, e : E, k : Kinds \ {"trig"}, tm : {0}, te : {0}]
-     \cup  [op : {"OnTrigger"}, m : 1..B.nm, e : E, k : {"trig"}, tm : 1..B.nm, te : E]
+Stimuli == [op : {"Trigger"}, m : 1..B.nm, e : B.es]
+     \cup  [op : {"OnTrigger"}, m : 1..B.nm, e : B.es, k : Kinds \ {"trig"}, tm : {0}, te : {0}]
+     \cup  [op : {"OnTrigger"}, m : 1..B.nm, e : B.es, k : Kinds \cap {"trig"}, tm : 1..B.nm, te : B.es]
      \cup  [op : {"OnWg"}, w : 1..B.nw, k : Kinds \ {"trig"}, tm : {0}, te : {0}]
-     \cup  [op : {"OnWg"}, w : 1..B.nw, k : {"trig"}, tm : 1..B.nm, te : E]
+     \cup  [op : {"OnWg"}, w : 1..B.nw, k : Kinds \cap {"trig"}, tm : 1..B.nm, te : B.es]
      \cup  [op : {"Unsub"}, c : 1..B.nc]
-     \cup  [op : {"TriggerAll", "WaitAll"}, e : E, ms : MSeqs]
-     \cup  [op : {"InitLife"}, m : 1..B.nm, mode : {1, 2}]
+     \cup  [op : {"TriggerAll", "WaitAll"}, e : B.es, ms : MSeqs]
+     \cup  [op : {"InitLife"}, m : 1..B.nm, mode : B.lf]
      \cup  [op : {"NewSub"}, p : 1..B.nm]
      \cup  [op : {"SetLevel"}, m : 1..B.nm, l : 1..B.nl]
 Next == \E s \in Stimuli : Do(s)
